@@ -5,7 +5,8 @@
 import JSV.Proofs.ResBase
 namespace JSV
 namespace Go
-namespace RInv
+namespace RTot
+open RInv
 open Uri
 
 /-- what the open-recursion callback must satisfy -/
@@ -309,6 +310,6 @@ theorem resolve_ne_panic (env : Env) (fuel : Nat) (root : NodeId) (base : String
       · exact Tot.ok trivial
   exact hT.1
 
-end RInv
+end RTot
 end Go
 end JSV
